@@ -230,6 +230,9 @@ func encode(ctx *encoder.RuntimeContext, v interface{}) ([]byte, error) {
 
 	p := uintptr(header.ptr)
 	ctx.Init(p, codeSet.CodeLength)
+	// while a recursive or interface program runs, the slots ( uintptr ) hold the only
+	// reference into this program, which is not necessarily the one kept in the cache.
+	ctx.KeepRefs = append(ctx.KeepRefs, unsafe.Pointer(codeSet))
 	ctx.KeepRefs = append(ctx.KeepRefs, header.ptr)
 
 	buf, err := encodeRunCode(ctx, b, codeSet)
@@ -258,6 +261,9 @@ func encodeNoEscape(ctx *encoder.RuntimeContext, v interface{}) ([]byte, error) 
 
 	p := uintptr(header.ptr)
 	ctx.Init(p, codeSet.CodeLength)
+	// while a recursive or interface program runs, the slots ( uintptr ) hold the only
+	// reference into this program, which is not necessarily the one kept in the cache.
+	ctx.KeepRefs = append(ctx.KeepRefs, unsafe.Pointer(codeSet))
 	buf, err := encodeRunCode(ctx, b, codeSet)
 	if err != nil {
 		return nil, err
@@ -285,6 +291,9 @@ func encodeIndent(ctx *encoder.RuntimeContext, v interface{}, prefix, indent str
 
 	p := uintptr(header.ptr)
 	ctx.Init(p, codeSet.CodeLength)
+	// while a recursive or interface program runs, the slots ( uintptr ) hold the only
+	// reference into this program, which is not necessarily the one kept in the cache.
+	ctx.KeepRefs = append(ctx.KeepRefs, unsafe.Pointer(codeSet))
 	buf, err := encodeRunIndentCode(ctx, b, codeSet, prefix, indent)
 
 	ctx.KeepRefs = append(ctx.KeepRefs, header.ptr)
